@@ -136,7 +136,7 @@ pub fn shard_run(tier: &str, seed: u64, replay_case: Option<usize>, shard: Shard
         out.errors.push("the server executable is not built".into());
     }
     let lib_kinds = [Kind::MEM_LIB, Kind::SQL_LIB, Kind::MEM_HTTP, Kind::SQL_HTTP];
-    let bin_kind = [Kind { backend: crate::subject::Backend::Sqlite, entry: crate::subject::Entry::Http, reopen_pct: 0, socket: true, peers: false }];
+    let bin_kind = [Kind { backend: crate::subject::Backend::Sqlite, entry: crate::subject::Entry::Http, reopen_pct: 0, socket: true, peers: false, pinned_first: false }];
     let mut conv = Conv { before_ok: true, after_ok: true };
     for (ci, (cfg, sweep)) in configs.iter().enumerate() {
         match replay_case {
